@@ -81,6 +81,9 @@ THEOREMS = [
     "BeyondVerif.CovHeap.attach_other",
     "BeyondVerif.CovHeap.svHop_other",
     "BeyondVerif.CovHeap.svHop_atomic",
+    "BeyondVerif.CovHeap.svSet_view",
+    "BeyondVerif.CovHeap.hop_svSet",
+    "BeyondVerif.CovHeap.svSet_invisible",
     "BeyondVerif.CovHeap.step_wf",
     "BeyondVerif.CovHeap.step_other",
     "BeyondVerif.CovHeap.step_allSep",
@@ -126,8 +129,12 @@ LEVEL_TEXT = ("Lean theorems about a state-machine model of Cov (tag, _orb_frame
               "svHop_other; step_other for every operation of the model, step_allSep: pairwise separation is invariant in a process that takes no numpy views), new objects share nothing with old ones except a view its base's memory (newCov/copyCov/pickle/derive/mkView_spec), "
               "sv.cov = c seen through c is the single-object attach (attach_self), and an interleaved run looked at "
               "through one object is the single-object run of the targets addressed to it (hops_project); over real matrices: each covariance ends as Mt C0 Mt^T for its OWN "
-              "state, matrix and last target whatever happens to the others (heap_path_independent, two_states_same_epoch, derived_independent; derived_path_independent: e = k * c ends as k Mt C0 Mt^T for every target). The heap model runs against "
-              "the real classes on random interleaved operation sequences over several states sharing date and frame.")
+              "state, matrix and last target whatever happens to the others (heap_path_independent, two_states_same_epoch, derived_independent; derived_path_independent: e = k * c ends as k Mt C0 Mt^T for every target). "
+              "The state object the caller keeps is a cell of its own, distinct from the private copy a covariance holds: an in-place write to it (Heap.svSet: sv[i] = v, sv[:] = ..., sv *= k, sv.form = ..., sv.date = ...) "
+              "is observed by no covariance (svSet_view), commutes with every frame change (hop_svSet), and after any later sequence of frame changes every covariance is observed exactly as if the write had not "
+              "happened (svSet_invisible: a read after an in-place write to the state returns what it returns without the write). The heap model runs against "
+              "the real classes on random interleaved operation sequences over several states sharing date and frame, in-place writes to the states included; the comparison includes WHICH object each covariance "
+              "holds as its reference state (the first covariance holding the same private copy; never one of the caller's state objects).")
 LEVEL_NOTE = ("numpy views share memory with their base by definition (modelled, excluded from the separation theorems by hypothesis Sep); arrays made by numpy carry `_orb_frame` "
               "since c5f38c8 and convert like any covariance (derived_path_independent); the state machine of Cov is hand-written and tied by correspondence (the conversion matrices it is "
               "proved about are C02's translated model, tied to the code by C02's correspondence; the driver is fed the real matrices); through G50 the position-block spectrum is preserved to "
@@ -136,7 +143,7 @@ LEVEL_NOTE = ("numpy views share memory with their base by definition (modelled,
 TECHNIQUE = "Lean 4 proof (invariant over all hop sequences, Mathlib matrices; hypotheses discharged from C02's translated model of the conversions and the list model of to_local) + kernel-decided witnesses + differential correspondence of the same generic model on floats"
 TRUSTED = [
     "lean/BeyondVerif/Model/Cov.lean: hand-written model of Cov.frame setter / Cov.copy / StateVector.frame setter / StateVector.cov setter (attach), generic in the matrix type; tied to beyond/orbits/cov.py and statevector.py by the correspondence run (histories of cov hops, state hops, state copies, re-attachments; tags exact, matrices rtol 1e-9)",
-    "lean/BeyondVerif/Model/CovHeap.lean: hand-written heap model (which cells Cov.__new__, Cov.copy, __array_finalize__, __reduce__/__setstate__, StateVector.cov setter allocate or share; when the setter raises AttributeError); tied to the code by the correspondence op `heap` (all bookkeeping of all objects exact after every operation, values rtol 1e-9)",
+    "lean/BeyondVerif/Model/CovHeap.lean: hand-written heap model (which cells Cov.__new__, Cov.copy, __array_finalize__, __reduce__/__setstate__, StateVector.cov setter allocate or share; that a covariance never holds the caller's state object; when the setter raises AttributeError); tied to the code by the correspondence op `heap` (all bookkeeping of all objects exact after every operation, identity of the private copy each object holds exact, values rtol 1e-9)",
     "lean/templates/Local.tpl: hand-written to_qsw / to_tnw / expand, tied to beyond/frames/local.py by the correspondence op `tolocal`; the theorems are about its R instantiation read as a Mathlib matrix (Lemmas/CovBridge.lean: listMat, realLocal)",
     "C02's model of Orientation.convert_to (Model/FramesR.lean from templates/Frames.tpl, Generated/FrameFormulasR.lean translated from the Python source, Generated/Graphs.lean): the conversion matrices builtin_* are about; tied to the code by C02's own correspondence, not by C14's (C14's driver is handed the real matrices)",
     "Generated/Frames.lean: registry of built-in frames (name -> canonical name) and the orientation links with their rate flag, read from the live modules / the AST of orient.py each run; names_agree checks it against the copy C20 generates",
@@ -164,12 +171,15 @@ OPEN = [
     "the Cov state machine itself (Model/Cov.lean, Model/CovHeap.lean) is hand-written, not translated from the AST of cov.py: a changed branch of the setter is noticed by the correspondence, not by a regenerated Lean term",
 ]
 RULE = ("heap correspondence: 2-4 states (mostly sharing date and frame, sometimes equal), a covariance per state built from every kind of `values` (lists of ints/floats, int32/int64/"
-        "float32/float64 arrays, np.matrix, Fortran/strided arrays, a Cov), then 6-12 random operations on random objects: frame assignment, state frame assignment, k * c, c + d, "
+        "float32/float64 arrays, np.matrix, Fortran/strided arrays, a Cov), then 6-12 random operations on random objects: frame assignment, state frame assignment, in-place writes to a state (sv.form = cartesian/keplerian/spherical/cylindrical, sv[i] = v, sv[:] = x, sv *= k, sv.date = d), k * c, c + d, "
         "copy.copy/deepcopy/np.array(subok)/astype, views (c.T, c[:], ...), in-place *=, Cov.copy(frame), pickle round trip, Cov(sv, cov), sv.cov = c; after EVERY operation the tag, "
-        "`_orb_frame`, private copy and values of EVERY object and the frame of every state are compared with the compiled Lean heap model (bookkeeping and error kind exact, values rtol 1e-9). "
+        "`_orb_frame`, private copy (its values AND which object it is) and values of EVERY object and the frame of every state are compared with the compiled Lean heap model (bookkeeping and error kind exact, values rtol 1e-9). "
         "oracle, in this order (a widened sweep stops at the first failing input that is not a listed finding): directed = every frame that can be visited x QSW/TNW x (covariance alone / following its state / "
         "Cov.copy(frame), also QSW<->TNW) then back, from 2 random states; attached-later = a covariance built for a state, attached with sv.cov = c after sv.frame = g / to sv.copy(frame=g) / to a fresh "
         "state object / re-attached / to another state, then 1-6 cov and state frame changes aimed at the frame of the state and at QSW/TNW, against R C R^T from independent references; "
+        "standalone-state-mutated = a covariance made for a state given in any of the 10 forms through each of 8 routes (Cov(sv, ...), Cov(sv, cov), cov.orb = sv, Cov.copy, pickle, attached then detached, 1.0 * c, attached), "
+        "then the caller's state object is modified IN PLACE (sv.form, sv.frame, sv[i] = v, sv[:] = x, sv *= k, sv.date; one kind or a mix, also between two conversions) and the covariance converted to QSW/TNW and regular frames: "
+        "R C R^T for the position, velocity and date it was made for, and cov.orb still that cartesian state; "
         "interleaved hops of 2-6 covariances (built by Cov(), attach, copy, pickle, Cov(sv, cov), sv.copy) against R C R^T of their own state from independent "
         "QSW/TNW/Jacobian references, every other object bitwise unchanged after each hop; arrays derived by 11 numpy operations vs their source in both orders; the constructor for 14 kinds of values. "
         "correspondence: random histories (length 1-7) of cov hops / state hops / state copies / re-attachments (c = sv.cov; sv.cov = c after the state moved) over the 10 built-in frames + QSW/TNW from each non-rotating start frame, "
@@ -840,6 +850,16 @@ class RealHeap:
                 o[op[1]].frame = op[2]
             elif k == "svh":
                 self.svs[op[1]].frame = op[2]
+            elif k == "svw":
+                # the caller writes into his own state object, in place; what the model is told is the result: date and cartesian coordinates
+                sv = self.svs[op[1]]
+                try:
+                    mutate_state(sv, op[2:4] if op[2] != "set" else [op[2]] + list(op[3]))
+                except Exception:  # noqa: BLE001 - the caller's own operation failed on his state; the state is what it is now
+                    pass
+                if len(op) == 4:
+                    op.append(self.dates.index(sv.date))
+                    op.append([float(v) for v in sv.copy(form="cartesian")])
             elif k == "scale":
                 o.append(op[2] * o[op[1]] if op[3] == "k*c" else o[op[1]] * op[2])
             elif k == "dup":
@@ -881,8 +901,10 @@ class RealHeap:
         for c in self.objs:
             tag = c.frame if isinstance(c.frame, str) else c.frame.name
             of = getattr(c, "_orb_frame", None)
+            users = [k for k, sv in enumerate(self.svs) if sv is c.orb]
+            share = "state-object-%d" % users[0] if users else next(j for j, d in enumerate(self.objs) if d.orb is c.orb)
             objs.append((tag, "-" if of is None else of.name, c.orb.frame.name, self.dates.index(c.orb.date), [float(v) for v in c.orb],
-                         [float(v) for v in np.array(c, dtype=float).flatten()]))
+                         [float(v) for v in np.array(c, dtype=float).flatten()], share))
         return objs, [sv.frame.name for sv in self.svs]
 
 
@@ -902,6 +924,8 @@ def op_tokens(op):
         return [k, str(op[1])]
     if k == "view":
         return ["view", str(op[1]), op[2]]
+    if k == "svw":
+        return ["svw", str(op[1]), str(op[4])] + [f2b(v) for v in op[5]]
     raise ValueError(k)
 
 
@@ -961,7 +985,22 @@ def gen_heap_case(rng, nops):
         r = rng.random()
         if 0.95 <= r < 0.98 and clone_tagged(real.objs[i]):
             r = 0.0
-        if r < 0.50 or n >= 9:
+        if 0.44 <= r < 0.50:
+            # in-place write to a state the caller keeps using: other form, components, date (the orbit stays bound: every form exists)
+            how = rng.choice(["form", "form", "set", "fill", "imul", "date"])
+            if how == "form":
+                arg = rng.choice(HEAP_FORMS)
+            elif how == "set":
+                q = rng.randrange(6)
+                arg = [q, -1.0 if q < 3 else rng.choice([-1.0, 0.5])]
+            elif how == "fill":
+                arg = gen_state(rng)
+            elif how == "imul":
+                arg = -1.0
+            else:
+                arg = dates[rng.randrange(nd)]
+            push(["svw", rng.randrange(ns), how, arg])
+        elif r < 0.50 or n >= 9:
             c = real.objs[i]
             if not hasattr(c, "_orb_frame") and rng.random() < 0.7:
                 t = rng.choice(LOCAL)
@@ -1049,15 +1088,19 @@ def compare_heap(out, obs, inp, rep):
             out.fail("heap-error-kind:" + inp["ops"][n][0], f"op {n} {op}: outcome differs", inp, observed=err, expected=toks[0])
             return
         nobj = int(toks[1])
-        if nobj != len(objs) or len(toks) != 2 + 46 * nobj + ns:
+        if nobj != len(objs) or len(toks) != 2 + 47 * nobj + ns:
             out.fail("heap-objects:" + inp["ops"][n][0], f"op {n} {op}: number of objects differs", inp, observed=len(objs), expected=nobj)
             return
-        if toks[2 + 46 * nobj:] != svf:
-            out.fail("heap-state-frames", f"op {n} {op}: frames of the states differ", inp, observed=svf, expected=toks[2 + 46 * nobj:])
+        if toks[2 + 47 * nobj:] != svf:
+            out.fail("heap-state-frames", f"op {n} {op}: frames of the states differ", inp, observed=svf, expected=toks[2 + 47 * nobj:])
             return
         for j, o in enumerate(objs):
-            t = toks[2 + 46 * j: 2 + 46 * (j + 1)]
+            t = toks[2 + 47 * j: 2 + 47 * (j + 1)]
             mb = [t[0], t[1], t[2], int(t[3])]
+            if str(o[6]) != t[46]:
+                out.fail("heap-orb-sharing:" + inp["ops"][n][0], f"op {n} {op}: object {j}: the reference state it holds is not the object the model says (index of the first covariance "
+                         "holding the same private copy; never a state object of the caller)", inp, observed=o[6], expected=int(t[46]))
+                return
             if list(o[:4]) != mb:
                 out.fail("heap-bookkeeping:" + inp["ops"][n][0], f"op {n} {op}: object {j}: (tag, _orb_frame, frame of the private copy, date) differ", inp,
                          observed=list(o[:4]), expected=mb)
@@ -1068,13 +1111,13 @@ def compare_heap(out, obs, inp, rep):
             if not all(core.close(a, b, rtol=0, atol=1e-9 * (rn if q < 3 else vn)) for q, (a, b) in enumerate(zip(o[4], morb))):
                 out.fail("heap-orb:" + inp["ops"][n][0], f"op {n} {op}: object {j}: private state copy differs", inp, observed=o[4], expected=morb)
                 return
-            mm = np.array([b2f(v) for v in t[10:]]).reshape(6, 6)
+            mm = np.array([b2f(v) for v in t[10:46]]).reshape(6, 6)
             rm = np.array(o[5]).reshape(6, 6)
             if not mclose(rm, mm, tscale(mm)):
                 out.fail("heap-matrix:" + inp["ops"][n][0], f"op {n} {op}: object {j}: values differ", inp, observed=o[5], expected=mm.flatten().tolist())
                 return
     out.sample({"heap ops": [o[:4] if o[0] != "new" else o[:4] for o in inp["ops"]][:12], "final impl tags": [o[0] for o in obs[-1][1]],
-                "final model tags": [segs[-1].split()[2 + 46 * j] for j in range(len(obs[-1][1]))]}, limit=2)
+                "final model tags": [segs[-1].split()[2 + 47 * j] for j in range(len(obs[-1][1]))]}, limit=2)
 
 
 def heap_correspondence(ctx, out):
@@ -1140,6 +1183,13 @@ def sweep(ctx, out, big, early):
     if early and unlisted(out):
         out.notes.append("widened sweep stopped after the attached-later family: failing input found")
         return out
+    for via in STANDALONE_VIA:
+        for mut in STANDALONE_MUT:
+            for _ in range(4 if big else 1):
+                guarded(check_standalone, out, gen_standalone(rng, via, mut))
+        if early and unlisted(out):
+            out.notes.append("widened sweep stopped after the standalone-state-mutated family: failing input found")
+            return out
     N = 1500 if big else 120
     for it in range(N):
         if early and it % 10 == 0 and unlisted(out):
@@ -1682,6 +1732,169 @@ def check_attached(out, scen):
             return
 
 
+STANDALONE_VIA = ["cov", "from", "orb-setter", "copy", "pickle", "detached", "derived", "attached"]
+STANDALONE_MUT = ["form", "frame", "set", "fill", "imul", "date", "mixed"]
+# forms defined for every position/velocity with non-zero angular momentum: a state of the heap correspondence keeps its form while it is
+# re-framed, also into Earth-fixed frames where the relative velocity is easily hyperbolic (mean/eccentric anomalies are then NaN: C01's subject)
+HEAP_FORMS = ["cartesian", "keplerian", "spherical", "cylindrical"]
+SV_FORMS = ["cartesian", "keplerian", "keplerian_mean", "keplerian_eccentric", "keplerian_circular", "keplerian_mean_circular", "equinoctial", "spherical", "cylindrical", "tle"]
+
+
+def gen_standalone(rng, via, mut):
+    """a covariance made for a state object the caller keeps and goes on using: the state is re-expressed or overwritten IN PLACE
+    (other form, other frame, other date, component assignment) between the creation of the covariance and its conversions"""
+    f0 = rng.choice(NONROT)
+    form0 = "cartesian" if rng.random() < 0.6 else rng.choice(SV_FORMS)
+
+    def one(kind):
+        if kind == "form":
+            return ["form", rng.choice(SV_FORMS[1:] if rng.random() < 0.8 else SV_FORMS)]
+        if kind == "frame":
+            return ["frame", rng.choice([f for f in FRAMES if f != f0])]
+        if kind == "set":
+            return ["set", rng.randrange(6), rng.choice([0.0, -1.0, 0.5, 1.25])]
+        if kind == "fill":
+            return ["fill", gen_state(rng)]
+        if kind == "imul":
+            return ["imul", rng.choice([-1.0, 0.5, 1.1])]
+        if kind == "date":
+            d = gen_date(rng)
+            return ["date", d]
+        raise ValueError(kind)
+    if via == "attached":
+        mut = "form"            # an attached covariance follows a frame change of its state (other families); the other in-place writes change what the state IS
+    kinds = [mut] if mut != "mixed" else [rng.choice(STANDALONE_MUT[:-1]) for _ in range(rng.randint(2, 3))]
+    ops = [["m"] + one(k) for k in kinds]
+    ops.append(["h", rng.choice(LOCAL) if (mut != "date" or rng.random() < 0.4) else rng.choice([f for f in FRAMES if f != f0])])
+    for _ in range(rng.randint(0, 3)):
+        r = rng.random()
+        if r < 0.35 and via != "attached":
+            ops.append(["m"] + one(rng.choice(STANDALONE_MUT[:-1])))
+        elif r < 0.35:
+            ops.append(["m"] + one("form"))
+        else:
+            ops.append(["h", rng.choice(FRAMES + LOCAL * 5)])
+    if ops[-1][0] == "m":
+        ops.append(["h", rng.choice(LOCAL)])
+    if rng.random() < 0.3:
+        ops.insert(0, ["h", rng.choice(FRAMES + LOCAL)])         # the covariance has already been used once before the state is touched
+    return {"kind": "standalone", "date": gen_date(rng), "f0": f0, "form0": form0, "x": gen_state(rng), "cov": gen_cov(rng)[0].tolist(),
+            "tag0": f0 if rng.random() < 0.75 else rng.choice(LOCAL), "via": via, "mut": mut, "ops": ops}
+
+
+def mutate_state(sv, m):
+    """one in-place modification of the caller's state object (never of the covariance, never through the covariance)"""
+    import numpy as np
+    k = m[0]
+    if k in ("set", "fill", "imul") and str(sv.form) != "cartesian":
+        sv.form = "cartesian"          # the numbers written below are meant as position / velocity components
+    if k == "form":
+        sv.form = m[1]
+    elif k == "frame":
+        sv.frame = m[1]
+    elif k == "set":
+        sv[m[1]] = float(sv[m[1]]) * m[2]
+    elif k == "fill":
+        sv.view(np.ndarray)[:] = m[1]
+    elif k == "imul":
+        sv *= m[1]
+    elif k == "date":
+        sv.date = mkdate(m[1])
+    else:
+        raise ValueError(k)
+
+
+def check_standalone(out, scen):
+    """the covariance C0 was made for the point of space-time (x, date, f0): whatever the caller does afterwards IN PLACE to the state
+    object handed to the constructor / to the `orb` setter, every conversion must give R C0 R^T with R from the definition for THAT
+    position, velocity and date, and the reference state the covariance holds must stay that cartesian state (a private one)"""
+    import pickle
+    import numpy as np
+    from beyond.orbits.cov import Cov
+    date, f0, x, via = scen["date"], scen["f0"], scen["x"], scen["via"]
+    c0 = np.array(scen["cov"])
+    home = home_matrix(scen["tag0"], x, c0)
+    sv = make_sv(x, date, f0)
+    if scen["form0"] != "cartesian":
+        try:
+            sv.form = scen["form0"]
+        except Exception:  # noqa: BLE001 - the form does not exist for this orbit (C01's business): stay cartesian
+            sv = make_sv(x, date, f0)
+    if via in ("from", "orb-setter"):
+        other = make_sv(x, date, f0)
+        base = Cov(other, c0.copy(), tagobj(scen["tag0"]))
+        if via == "from":
+            c = Cov(sv, base, None)
+        else:
+            c = base
+            c.orb = sv
+    else:
+        c = Cov(sv, c0.copy(), tagobj(scen["tag0"]))
+        if via == "copy":
+            c = c.copy()
+        elif via == "pickle":
+            c = pickle.loads(pickle.dumps(c))
+        elif via == "detached":
+            sv.cov = c
+            del sv.cov
+        elif via == "derived":
+            c = 1.0 * c
+        elif via == "attached":
+            sv.cov = c
+            c = sv.cov
+    rot = {}
+
+    def expected(t):
+        if t not in rot:
+            R = ref_rotation(x, date, f0, t)
+            rot[t] = R @ home @ R.T
+        return rot[t]
+    mk = scen["mut"]
+    out.count(key=("standalone", via, mk, f0, scen["form0"], str(scen["ops"]), tuple(x)), nontrivial=True, kind="standalone-state-mutated", via=via, mutation=mk,
+              form0="cartesian" if scen["form0"] == "cartesian" else "other")
+    xn = np.array(x)
+    sx = np.array([np.abs(xn[:3]).max()] * 3 + [np.abs(xn[3:]).max() + 7.3e-5 * np.abs(xn[:3]).max()] * 3)
+    done = []
+    for n, op in enumerate(scen["ops"]):
+        if op[0] == "m":
+            try:
+                mutate_state(sv, op[1:])
+                done.append(op[1])
+            except Exception:  # noqa: BLE001 - the caller's own operation failed on his state (e.g. no such form for these numbers): not the covariance's business
+                pass
+        else:
+            t = op[1]
+            c.frame = t
+            want = t if t in LOCAL else canon(t)
+            who = "cov.frame = " + t
+            fam = "standalone-state-mutated:" + (done[-1] if done else "none") + ":" + ("local-target" if t in LOCAL else "frame-target")
+            out.count(key=None, kind="standalone-hop")
+            got = np.array(c)
+            if tagname(c) != want:
+                out.fail(fam + ":tag", f"op {n} ({who}): wrong frame label", scen, observed=tagname(c), expected=want)
+                return
+            if not mclose(got, expected(want), tscale(expected(want))):
+                rel = float(np.abs(got - expected(want)).max() / max(np.abs(expected(want)).max(), 1e-300))
+                out.fail(fam, f"op {n} ({who}) after the in-place state modifications {done}: the covariance (made via {via}) is not R C R^T for the position, velocity and date it was made for "
+                         "(QSW/TNW of the inertial position and velocity)", scen, observed={"rel_diff": rel, "matrix": got.tolist()}, expected=expected(want).tolist())
+                return
+            # the reference state the covariance holds (public `cov.orb`): cartesian, the point of space-time it was made for
+            o = c.orb
+            bad = None
+            if str(o.form) != "cartesian":
+                bad = f"is in {o.form} form"
+            elif o.frame.name != f0:
+                bad = f"is expressed in {o.frame.name}"
+            elif o.date != mkdate(date):
+                bad = "has another date"
+            elif not bool(np.all(np.abs(np.array(o) - xn) <= 1e-9 * sx)):
+                bad = "has other coordinates"
+            if bad:
+                out.fail("standalone-state-mutated:reference-state:" + (done[-1] if done else "none"), f"op {n} ({who}): the reference state held by the covariance (made via {via}) {bad}", scen,
+                         observed={"form": str(o.form), "frame": o.frame.name, "x": [float(v) for v in o]}, expected={"form": "cartesian", "frame": f0, "x": list(x)})
+                return
+
+
 def gen_directed(rng):
     f0 = rng.choice(NONROT)
     return {"kind": "directed", "date": gen_date(rng), "f0": f0, "x": gen_state(rng), "cov": gen_cov(rng)[0].tolist()}
@@ -1762,7 +1975,7 @@ def guarded(check, out, scen):
         out.fail(f"{scen['kind']}:exception:{type(ex).__name__}:{site}", f"unexpected {type(ex).__name__} ({ex}) at {site}", scen, observed=f"{type(ex).__name__}: {ex}")
 
 
-CHECKS = {"multi": check_multi, "derived": check_derived, "ctor": check_ctor, "unpickled": check_unpickled, "attached": check_attached, "directed": check_directed}
+CHECKS = {"standalone": check_standalone, "multi": check_multi, "derived": check_derived, "ctor": check_ctor, "unpickled": check_unpickled, "attached": check_attached, "directed": check_directed}
 
 
 def several_objects(out, rng, big, early=False):
